@@ -417,7 +417,6 @@ func VerifC31_reset_token() {
 	vfReach("end")
 }
 
-
 // The same under CONCURRENT use of one generator (several Conns of an Endpoint issue NEW_CONNECTION_ID tokens while
 // the endpoint's receive loop computes stateless resets): 2 goroutines each request 1 token (thorough: the first one 1 or 2, one more preemption) for
 // their own symbolic connection IDs under the symbolic scheduler; every scheduling point of the mutex and of the
